@@ -280,6 +280,18 @@ pub fn gen_c03(out: &mut dyn Write, thorough: bool, seed: u64) {
     gen_all_scalars(out, "c03");
     special_positions(out, false);
     let mut r = Rng::new(seed);
+    // the one fully segmented sentence that no parser builds: the single-space sentence of `Sentence::default()` and of every
+    // rejected update (its text needs escaping)
+    for ops in ["new", "Fraw:6162,raw:6100", "Ftok:612f78,tok:2061", "new,part:6178", "Fraw:6162,tok:612020,reset:1"] {
+        writeln!(out, "S {ops},obs:TBKGIW c03rt").unwrap();
+    }
+    // … and a tagged sentence that has been through a prediction before it is written
+    {
+        let m = crate::model::AbsModel { char_w: 1, type_w: 1, bias: 1, char_ngrams: vec![("a".into(), vec![2, -3])], ..Default::default() };
+        for tok in ["ab/x c/y/z", "a/t b\\ c/u"] {
+            writeln!(out, "H {} {}^00 Ftok:{},pred:0,obs:TBKGIW c03rt", crate::gen_pred::CFG, m.to_text(), hexs(tok)).unwrap();
+        }
+    }
     for t in ["a\\ b/x\\/y c", "a/x//z b", "\\\\/\\ ", "a//", "a\\", "\\"] {
         writeln!(out, "S Ftok:{},obs:TBKGIW c03idem", hexs(t)).unwrap();
     }
@@ -343,6 +355,16 @@ pub fn gen_c04(out: &mut dyn Write, thorough: bool, seed: u64) {
     gen_all_scalars(out, "c04");
     special_positions(out, true);
     let mut r = Rng::new(seed);
+    // "any sentence": also one that has been through a prediction since it was annotated (a predictor is attached, the labels are
+    // the predictor's, the tags — on any character — are still the annotator's), relabelled afterwards or predicted twice
+    {
+        let m = crate::model::AbsModel { char_w: 1, type_w: 1, bias: -1, char_ngrams: vec![("a".into(), vec![2, -3])], ..Default::default() };
+        for annot in ["a/x-b/y|c/z-a", "a/t1/t2-a-b/u|a", "あ/名 a/x-い/y", "b/p q-b/\\|r b/s"] {
+            for ops in ["pred:0", "pred:0,setb:0:N", "pred:0,pred:0", "pred:0,setb:1:U"] {
+                writeln!(out, "H {} {}^00 Fpart:{},{ops},obs:TBKGP c04rt", crate::gen_pred::CFG, m.to_text(), hexs(annot)).unwrap();
+            }
+        }
+    }
     for (t, l, tags) in [("abc", "NU", vec![(1usize, "x-y")]), ("ab", "W", vec![(0, "a|b"), (1, "c d\\e/f")])] {
         let mut ops = format!("Fraw:{},setbs:{},reset:1", hexs(t), l);
         for (i, tag) in tags {
@@ -634,6 +656,16 @@ pub fn gen_c15(out: &mut dyn Write, thorough: bool, seed: u64) {
                     }
                 }
             }
+        }
+    }
+    // grapheme clusters of 255, 256, 257 and 300 code points (a letter with that many combining marks), followed by other clusters
+    for &n in &[255usize, 256, 257, 300] {
+        let text: String = std::iter::once('e').chain(std::iter::repeat('\u{301}').take(n - 1)).chain("a🇯🇵e\u{301}b".chars()).collect();
+        let len = text.chars().count();
+        for lab in ['W', 'U'] {
+            let labels: String = std::iter::repeat(lab).take(len - 1).collect();
+            let cl = cluster_lengths(&text).iter().map(|x| x.to_string()).collect::<Vec<_>>().join(".");
+            writeln!(out, "S Fraw:{},setbs:{labels},filter:gc:{cl},obs:TYBKG c15", hexs(&text)).unwrap();
         }
     }
     // long sentences: block seams of any size (uniform character type, all boundaries set, line breaks at seams)
